@@ -79,18 +79,37 @@ def view_func(W, f):
         if not hasattr(cur, "__wrapped__") or guard > 50:
             break
         cur = cur.__wrapped__
+    # metadata: the outermost object against the original function at the end of the chain
+    orig = objs[-1]
+    meta = True
+    for attr in ("__name__", "__qualname__", "__doc__", "__module__", "__annotations__"):
+        if getattr(f, attr, None) != getattr(orig, attr, None):
+            meta = False
+    try:
+        if str(inspect.signature(f)) != str(inspect.signature(orig)):
+            meta = False
+    except (TypeError, ValueError):
+        meta = False
+    if inspect.iscoroutinefunction(f) != inspect.iscoroutinefunction(orig):
+        meta = False
+    if getattr(f, "__isabstractmethod__", False) != getattr(orig, "__isabstractmethod__", False):
+        meta = False
+    if chain[-1] != ["orig"]:
+        meta = False
+    if not inspect.isfunction(orig):
+        meta = True        # a slot wrapper of object (no annotations, no Python signature): nothing to compare
     # the wrapper whose code evaluates the contracts (it reads the lists off itself) ...
     enforcing = next((o for o, r in zip(objs, chain) if r == ["checker"]), None)
     # ... and what the introspection interface hands out
     ch = icontract._checkers.find_checker(f)
     intro = ch is enforcing
     if enforcing is None:
-        return {"chain": chain, "pre": [], "snaps": [], "post": [], "intro": intro}
+        return {"chain": chain, "pre": [], "snaps": [], "post": [], "intro": intro, "meta": meta}
     return {"chain": chain,
             "pre": [[ident(c.condition) for c in g] for g in getattr(enforcing, "__preconditions__", [])],
             "snaps": [ident(s.capture) for s in getattr(enforcing, "__postcondition_snapshots__", [])],
             "post": [ident(c.condition) for c in getattr(enforcing, "__postconditions__", [])],
-            "intro": intro}
+            "intro": intro, "meta": meta}
 
 
 def view_member(W, cls, name):
@@ -138,7 +157,8 @@ def view_class(W, classes, cls, names):
 
 def run_case(case):
     W = ElabWorld()
-    ns = {"icontract": icontract, "W": W}
+    import abc
+    ns = {"icontract": icontract, "W": W, "abc": abc}
     registered = []
     classes = []
     funcs = []
